@@ -1,5 +1,6 @@
 import Whv.Lemmas.Vaa
 import Whv.Gen.C04
+import Whv.Driver.Vaa
 /-!
 # C04 — the signing digest is a deterministic, injective function of the message
 
@@ -143,5 +144,28 @@ def sampleBody (cl : Nat) : Body :=
   { ts := 1700000000, nonce := 1, emitterChain := 255, targetChain := 2, emitter := List.replicate 32 7,
     sequence := 5, consistency := cl, payload := [1, 2, 3] }
 example : (sampleBody 1).WF ∧ (sampleBody 2).WF ∧ serializeBody (sampleBody 1) ≠ serializeBody (sampleBody 2) := by decide
+
+/-- The driver's reading of a serialized VAA as the contracts read it (`contractBody`: skip `6 + 66·(count byte)` bytes) yields the
+signing body — for EVERY payload length, the empty payload included (the clause `wire-body-not-signing-body` evaluates exactly this
+on `Marshal`'s output). -/
+theorem contract_body_of_wire (v : Vaa) (hn : v.sigs.length ≤ 255) (hs : ∀ s ∈ v.sigs, s.WF) :
+    Whv.Driver.VaaFam.contractBody (marshal v) = serializeBody v.body := by
+  unfold Whv.Driver.VaaFam.contractBody
+  have e : marshal v = (be 1 v.version ++ be 4 v.gsIndex) ++ (be 1 v.sigs.length ++ (sigsBytes v.sigs ++ serializeBody v.body)) := by
+    simp [marshal, List.append_assoc]
+  rw [e, takeN_append_of_length (by simp [be_length])]
+  simp only [takeN_append_of_length (be_length 1 _)]
+  rw [unbe_be1 (by omega), ← sigsBytes_length _ hs]
+  simp
+
+/-- Two VAAs with different (in-range) bodies never share a wire form: the body can be read back from the serialized VAA. -/
+theorem wire_determines_body (v₁ v₂ : Vaa) (n₁ : v₁.sigs.length ≤ 255) (n₂ : v₂.sigs.length ≤ 255)
+    (s₁ : ∀ s ∈ v₁.sigs, s.WF) (s₂ : ∀ s ∈ v₂.sigs, s.WF) (w₁ : v₁.body.WF) (w₂ : v₂.body.WF)
+    (h : marshal v₁ = marshal v₂) : v₁.body = v₂.body := by
+  apply body_injective _ _ w₁ w₂
+  rw [← contract_body_of_wire v₁ n₁ s₁, ← contract_body_of_wire v₂ n₂ s₂, h]
+
+/-- Non-vacuity: the empty payload and the payload `[0]` have different wire forms. -/
+example : marshal ⟨1, 0, [], { sampleBody 1 with payload := [] }⟩ ≠ marshal ⟨1, 0, [], { sampleBody 1 with payload := [0] }⟩ := by decide
 
 end Whv.C04
